@@ -34,7 +34,7 @@ def base(seed, index, ex="asyncio"):
                   "resp": gen.gen_resp_plan(r, tok.encode(), method,
                                             {"body_len": r.choice([0, 30, 2000]), "p_interim": 0.0,
                                              "p_conn_close": 0.15, "p_http10": 0.0,
-                                             "framings": ["cl", "chunked"]}),
+                                             "p_early": 0.3, "framings": ["cl", "chunked"]}),
                   "timeouts": {"connect": 2.0, "read": 2.0, "write": 2.0, "pool": 30.0}}
             if method != "GET":
                 nb = r.choice([0, 100, 3000])
